@@ -10,6 +10,7 @@ import (
 	"fmt"
 	"net"
 	"strings"
+	"sync"
 	"syscall"
 	"time"
 
@@ -34,6 +35,8 @@ type remoteRunner struct {
 	stopping bool          // true if Stop() has been called
 	givenup  bool          // true if timeoutTERM has been reached
 	closed   chan struct{} // channel is closed if Close() has been called
+
+	closeOnce sync.Once // closes the closed channel
 }
 
 // newRemoteRunner returns a new remoteRunner. Caller should ensure
@@ -107,7 +110,12 @@ func (rr *remoteRunner) Start() {
 // Close abandons the remote process (if any) and releases
 // resources. Close must not be called more than once.
 func (rr *remoteRunner) Close() {
-	close(rr.closed)
+	// In practice Close is called more than once: worker.Close()
+	// closes all of its runners but leaves them in
+	// wkr.running/starting, and a probe result or kill
+	// notification that arrives afterwards closes them again via
+	// closeRunner().
+	rr.closeOnce.Do(func() { close(rr.closed) })
 }
 
 // Kill starts a background task to kill the remote process, first
